@@ -78,6 +78,13 @@ example : Ex.T.wf = true ∧ Ex.j1.dupFree = true ∧ Ex.j2.dupFree = true ∧
     unm {} Ex.T Ex.j1 Ex.T.zero = .ok Ex.v1 ∧ unm {} Ex.T Ex.j2 Ex.v1 = .ok Ex.v2 := by
   refine ⟨by decide, by decide, by decide, by rfl, by rfl⟩
 
+/-- `merge` is NOT associative: a non-object in the middle of a chain resets the destination
+(`({x} ⊕ null) ⊕ {y} = {y}` but `{x} ⊕ (null ⊕ {y}) = {x,y}`), which is why `chain_law` is stated —
+and only true — for the LEFT fold of `merge`, the order in which successive calls happen. -/
+theorem merge_not_assoc : ∃ a b c : JTree, JTree.merge (JTree.merge a b) c ≠ JTree.merge a (JTree.merge b c) := by
+  refine ⟨.obj [([0x78], .null)], .null, .obj [([0x79], .null)], ?_⟩
+  simp [JTree.merge, JTree.mergeL, alookup, ahas]
+
 /-! ### Chains -/
 
 /-- **Chain law.**  `k` successive successful calls starting from the zero value leave what one call
@@ -143,6 +150,33 @@ theorem array_overwrite (o : UOpts) (n : Nat) (t : GoType) (xs : List JTree) (pr
       refine ⟨?_, vs, h.symm, arrayElems_spec he⟩
       intro ho
       simpa [ho] using hc
+
+/-- The any-length variant spelled out (`UnmarshalArrayFromAnyLength`): an input SHORTER than the
+array is accepted, and every position past the input holds the zero value — whatever the array held. -/
+theorem array_short_zero_fill (o : UOpts) (n : Nat) (t : GoType) (xs : List JTree) (prior : GoVal) (vs : List GoVal)
+    (h : unm o (.array n t) (.arr xs) prior = .ok (.arrayOf vs)) (i : Nat) (hi : i < n) (hx : xs.length ≤ i) :
+    vs[i]? = some t.zero := by
+  obtain ⟨_, vs', hv, _, hall⟩ := array_overwrite o n t xs prior _ h
+  cases hv
+  have := hall i hi
+  rw [List.getElem?_eq_none hx] at this
+  exact this
+
+/-- … and an input LONGER than the array: the surplus elements have no influence on the result
+(they are only syntax-checked), positions `i < n` hold the decode of input element `i`. -/
+theorem array_long_drops (o : UOpts) (n : Nat) (t : GoType) (xs : List JTree) (prior : GoVal) (vs : List GoVal)
+    (h : unm o (.array n t) (.arr xs) prior = .ok (.arrayOf vs)) :
+    vs.length = n ∧ ∀ (i : Nat) (x : JTree), i < n → xs[i]? = some x → ∃ w, unm o t x t.zero = .ok w ∧ vs[i]? = some w := by
+  obtain ⟨_, vs', hv, hl, hall⟩ := array_overwrite o n t xs prior _ h
+  cases hv
+  refine ⟨hl, ?_⟩
+  intro i x hi hx
+  have := hall i hi
+  rw [hx] at this
+  exact this
+
+example : unm { arrayAnyLen := true } (.array 2 (.int 8)) (.arr [.num [0x37]]) (.arrayOf [.int 1, .int 2])
+    = .ok (.arrayOf [.int 7, .int 0]) := by rfl
 
 /-- **Map entries not mentioned in the input are kept** (and the map stays a non-nil map). -/
 theorem unmentioned_kept_map (o : UOpts) (t : GoType) (ms : List (Bytes × JTree))
